@@ -59,6 +59,7 @@ fn main() {
                 "C10" => props::c10::run(&cx),
                 "C16" => props::c16::run(&cx),
                 "C17" => props::c17::run(&cx),
+                "C18" => props::c18::run(&cx),
                 other => {
                     eprintln!("unknown property {}", other);
                     3
